@@ -20,10 +20,11 @@ SigChoices == { <<>>, << <<1,"S_BOOL">> >>, << <<2,"S_UINT8">>, <<1,"S_BOOL">> >
                 << <<1,"S_BOOL">>, <<1,"S_UINT8">> >>,                                  \* tie: document order
                 << <<1,"NOPE">>, <<0,"S_SINT32">> >>,                                    \* unknown reference skipped
                 << <<1,"S_FLOA16">>, <<2,"SIG_A">> >>,                                   \* unsupported standard name skipped; custom signal
-                << <<3,"SIG_B">>, <<1,"SIG_X">>, <<2,"SIG_A">> >> }                      \* signal -> coding -> base type; dangling coding
+                << <<3,"SIG_B">>, <<1,"SIG_X">>, <<2,"SIG_A">> >>,                       \* signal -> coding -> base type; dangling coding
+                << <<1,"S_RAW_X">>, <<2,"S_UINT8X">>, <<3,"S_RAW">> >> }                 \* ids that merely start with a standard name: unknown / custom
 RefChoices == { << <<0,"P1">> >>, << <<5,"P2">>, <<2,"P1">> >>, << <<1,"P1">>, <<1,"P2">> >>, << <<10,"P2">>, <<9,"P1">>, <<11,"P2">> >>, << <<0,"PX">> >> }
 SignalSets == { <<>>, << <<"SIG_A","COD_1">>, <<"SIG_B","COD_2">>, <<"SIG_X","COD_NONE">> >>,
-                << <<"SIG_A","COD_1">>, <<"SIG_B","COD_2">>, <<"SIG_A","COD_2">> >> }   \* a later definition of a signal overrides
+                << <<"SIG_A","COD_1">>, <<"S_UINT8X","COD_2">>, <<"SIG_A","COD_2">> >> }   \* a later definition of a signal overrides; a custom id with a standard prefix
 CodingSets == { << <<"COD_1","A_UINT16">>, <<"COD_2","A_ASCIISTRING">> >>, << <<"COD_1","A_NOPE">>, <<"COD_2","A_FLOAT64">>, <<"COD_1","A_INT8">> >> }
 Pdu(id, d, sg) == [id |-> id, desc |-> d, sigs |-> sg]
 Frame(id, n, ac, mt, rf) == [id |-> id, short_name |-> n, app |-> ac[1], ctx |-> ac[2], mtype |-> mt, minfo |-> mt, refs |-> rf]
